@@ -1,1 +1,1160 @@
-(** Proofs/CodecProofs.v — placeholder, to be written. *)
+(** Proofs/CodecProofs.v — lemmas about Model/Codec.v (C16).
+
+    Part 1: the JSON codec round-trips: [json_parse (jprint 0 v) = Some v] for every
+            value built from None / bool / int / str / list / dict with unique string
+            keys, any nesting, any bytes in the strings, at any indentation level.
+    Part 2: step-level composition for an arbitrary codec satisfying a round-trip law.
+    Part 3: fileformat = every string node replaced by its formatted value. *)
+From PV Require Import Codec FormatProofs.
+From Coq Require Import Lia.
+Open Scope string_scope.
+
+(** * Part 1a: strings *)
+Definition esc1 (c : ascii) : string := json_str_body (String c EmptyString).
+
+Lemma json_str_body_cons c r : json_str_body (String c r) = esc1 c ++ json_str_body r.
+Proof.
+  unfold esc1. cbn [json_str_body].
+  repeat match goal with |- context [if ?b then _ else _] => destruct b end;
+    cbn [append hex2]; reflexivity.
+Qed.
+
+(** one source byte: whatever escape the printer chose, the scanner reads that byte back
+    (all 256 bytes, by evaluation) *)
+Lemma parse_str_esc1 c t :
+  parse_str_body (esc1 c ++ t) = prepend (String c EmptyString) (parse_str_body t).
+Proof. destruct c as [[] [] [] [] [] [] [] []]; reflexivity. Qed.
+
+Lemma parse_str_body_print s rest :
+  parse_str_body (json_str_body s ++ String dquote rest) = Some (s, rest).
+Proof.
+  induction s as [|c s IH].
+  - reflexivity.
+  - rewrite json_str_body_cons, append_assoc_s, parse_str_esc1, IH. reflexivity.
+Qed.
+
+Lemma jquote_parse s rest :
+  exists t, jquote s ++ rest = String dquote t /\ parse_str_body t = Some (s, rest).
+Proof.
+  unfold jquote. eexists. split; [reflexivity|].
+  rewrite append_assoc_s. apply parse_str_body_print.
+Qed.
+
+(** * Part 1b: integers *)
+Lemma pos_digits_acc f n acc : pos_digits f n acc = pos_digits f n EmptyString ++ acc.
+Proof.
+  revert n acc; induction f as [|f IH]; intros n acc; cbn [pos_digits]; [reflexivity|].
+  destruct (n <? 10)%Z; [reflexivity|].
+  rewrite IH. rewrite (IH _ (String _ EmptyString)). rewrite append_assoc_s. reflexivity.
+Qed.
+
+Lemma digits_to_Z_app a b acc : digits_to_Z (a ++ b) acc = digits_to_Z b (digits_to_Z a acc).
+Proof. revert acc; induction a as [|c a IH]; intros acc; cbn; [reflexivity|]. apply IH. Qed.
+
+Lemma all_digits_app a b : all_digits (a ++ b) = all_digits a && all_digits b.
+Proof. induction a as [|c a IH]; cbn; [reflexivity|]. rewrite IH. now rewrite andb_assoc. Qed.
+
+Lemma digit_char_spec n :
+  (0 <= n < 10)%Z ->
+  is_digit (digit_char n) = true /\
+  Z.of_nat (nat_of_ascii (digit_char n) - 48) = n /\
+  (Ascii.eqb (digit_char n) "0"%char = true -> n = 0%Z).
+Proof.
+  intros H.
+  assert (E : (n = 0 \/ n = 1 \/ n = 2 \/ n = 3 \/ n = 4 \/ n = 5 \/ n = 6 \/ n = 7 \/ n = 8 \/ n = 9)%Z)
+    by lia.
+  destruct E as [->|[->|[->|[->|[->|[->|[->|[->|[->| ->]]]]]]]]];
+    (split; [reflexivity|split; [reflexivity|]]); cbn; intros; try reflexivity; discriminate.
+Qed.
+
+(** the digit string of a non-negative number: all digits, evaluates back, and starts
+    with "0" only for zero *)
+Definition first_is_zero (s : string) : bool :=
+  match s with String c _ => Ascii.eqb c "0"%char | EmptyString => false end.
+
+Lemma first_is_zero_app a b : a <> EmptyString -> first_is_zero (a ++ b) = first_is_zero a.
+Proof. destruct a; [congruence|reflexivity]. Qed.
+
+Lemma pos_digits_S f n acc :
+  pos_digits (S f) n acc =
+  if (n <? 10)%Z then String (digit_char n) acc
+  else pos_digits f (n / 10)%Z (String (digit_char (n mod 10)%Z) acc).
+Proof. reflexivity. Qed.
+
+Lemma pos_digits_spec f n :
+  (0 <= n < 2 ^ Z.of_nat (S f))%Z ->
+  let s := pos_digits (S f) n EmptyString in
+  s <> EmptyString /\ all_digits s = true /\ digits_to_Z s 0 = n /\
+  (first_is_zero s = true -> n = 0%Z).
+Proof.
+  revert n; induction f as [|f IH]; intros n H; cbv zeta; rewrite pos_digits_S;
+    destruct (n <? 10)%Z eqn:E.
+  - apply Z.ltb_lt in E. destruct (digit_char_spec n ltac:(lia)) as (D1 & D2 & D3).
+    cbn [all_digits digits_to_Z first_is_zero]. rewrite D1, D2.
+    repeat split; try discriminate; try assumption; lia.
+  - apply Z.ltb_ge in E. cbn in H. lia.
+  - apply Z.ltb_lt in E. destruct (digit_char_spec n ltac:(lia)) as (D1 & D2 & D3).
+    cbn [all_digits digits_to_Z first_is_zero]. rewrite D1, D2.
+    repeat split; try discriminate; try assumption; lia.
+  - apply Z.ltb_ge in E.
+    assert (Hq : (0 <= n / 10 < 2 ^ Z.of_nat (S f))%Z).
+    { split; [apply Z.div_pos; lia|].
+      apply Z.div_lt_upper_bound; [lia|].
+      rewrite (Nat2Z.inj_succ (S f)), Z.pow_succ_r in H by lia. lia. }
+    destruct (IH _ Hq) as (N & A & V & Z0).
+    rewrite pos_digits_acc.
+    assert (Hm : (0 <= n mod 10 < 10)%Z) by (apply Z.mod_pos_bound; lia).
+    destruct (digit_char_spec _ Hm) as (D1 & D2 & D3).
+    repeat split.
+    + destruct (pos_digits (S f) (n / 10) ""); [congruence|cbn; discriminate].
+    + rewrite all_digits_app, A. cbn [all_digits andb]. now rewrite D1.
+    + rewrite digits_to_Z_app, V. cbn [digits_to_Z]. rewrite D2.
+      pose proof (Z.div_mod n 10 ltac:(lia)). lia.
+    + rewrite first_is_zero_app by assumption. intros Hz. apply Z0 in Hz.
+      assert (1 <= n / 10)%Z; [|lia]. apply Z.div_le_lower_bound; lia.
+Qed.
+
+Lemma str_of_nonneg_spec n :
+  (0 <= n)%Z ->
+  let s := str_of_nonneg n in
+  s <> EmptyString /\ all_digits s = true /\ digits_to_Z s 0 = n /\
+  (first_is_zero s = true -> n = 0%Z).
+Proof.
+  intros H. unfold str_of_nonneg. apply pos_digits_spec.
+  split; [assumption|].
+  destruct (Z.eq_dec n 0) as [->|Hn]; [cbn; lia|].
+  rewrite Nat2Z.inj_succ, Z2Nat.id by apply Z.log2_nonneg.
+  apply Z.log2_spec. lia.
+Qed.
+
+Lemma str_of_nonneg_zero : str_of_nonneg 0 = "0".
+Proof. reflexivity. Qed.
+
+(** what may follow a printed value *)
+Definition follow_ok (rest : string) : bool :=
+  match rest with
+  | EmptyString => true
+  | String c _ => negb (is_digit c) && negb (float_mark c)
+  end.
+
+Lemma span_digits_app ds rest :
+  all_digits ds = true ->
+  match rest with String c _ => is_digit c = false | EmptyString => True end ->
+  span_digits (ds ++ rest) = (ds, rest).
+Proof.
+  intros A R. induction ds as [|c ds IH]; cbn.
+  - destruct rest as [|c r]; [reflexivity|]. cbn. now rewrite R.
+  - cbn in A. apply andb_true_iff in A. destruct A as [A1 A2].
+    rewrite A1, (IH A2). reflexivity.
+Qed.
+
+Lemma follow_ok_digit rest :
+  follow_ok rest = true ->
+  match rest with String c _ => is_digit c = false | EmptyString => True end.
+Proof.
+  destruct rest as [|c r]; cbn; [trivial|]. intros H.
+  apply andb_true_iff in H. destruct H as [H _]. now apply negb_true_iff in H.
+Qed.
+
+Lemma follow_ok_float rest :
+  follow_ok rest = true ->
+  match rest with String c _ => float_mark c | EmptyString => false end = false.
+Proof.
+  destruct rest as [|c r]; cbn; [trivial|]. intros H.
+  apply andb_true_iff in H. destruct H as [_ H]. now apply negb_true_iff in H.
+Qed.
+
+Lemma parse_nonneg_digits n rest :
+  (0 <= n)%Z -> follow_ok rest = true ->
+  exists d ds', str_of_nonneg n = String d ds' /\ is_digit d = true /\
+    span_digits (str_of_nonneg n ++ rest) = (str_of_nonneg n, rest) /\
+    (Ascii.eqb d "0"%char && negb (String.eqb ds' EmptyString) = false) /\
+    digits_to_Z (str_of_nonneg n) 0 = n.
+Proof.
+  intros Hn Hf.
+  destruct (str_of_nonneg_spec n Hn) as (N & A & V & Z0).
+  destruct (str_of_nonneg n) as [|d ds'] eqn:E; [congruence|].
+  exists d, ds'. split; [reflexivity|].
+  assert (Hd : is_digit d = true) by (cbn [all_digits] in A; apply andb_true_iff in A; tauto).
+  split; [exact Hd|]. split.
+  - apply span_digits_app; [exact A|]. now apply follow_ok_digit.
+  - split; [|exact V].
+    destruct (Ascii.eqb d "0"%char) eqn:Ed; [|reflexivity].
+    cbn [first_is_zero] in Z0. specialize (Z0 Ed). rewrite Z0 in E.
+    rewrite str_of_nonneg_zero in E. inversion E; subst. reflexivity.
+Qed.
+
+Lemma is_digit_not_minus d : is_digit d = true -> Ascii.eqb d "-"%char = false.
+Proof.
+  intros H. destruct (Ascii.eqb d "-"%char) eqn:E; [|reflexivity].
+  apply Ascii.eqb_eq in E. subst. discriminate.
+Qed.
+
+Lemma parse_int_print z rest :
+  follow_ok rest = true -> parse_int (str_of_Z z ++ rest) = Some (z, rest).
+Proof.
+  intros Hf. unfold str_of_Z. destruct (z <? 0)%Z eqn:E.
+  - apply Z.ltb_lt in E.
+    destruct (parse_nonneg_digits (- z) rest ltac:(lia) Hf) as (d & ds' & Eq & Hd & Sp & Lz & V).
+    unfold parse_int. cbn [append]. rewrite Ascii.eqb_refl.
+    rewrite Sp. rewrite Eq in *. rewrite Lz. rewrite (follow_ok_float _ Hf).
+    rewrite V. f_equal. f_equal. lia.
+  - apply Z.ltb_ge in E.
+    destruct (parse_nonneg_digits z rest E Hf) as (d & ds' & Eq & Hd & Sp & Lz & V).
+    unfold parse_int.
+    assert (Hm : match str_of_nonneg z ++ rest with
+                 | String c r => if Ascii.eqb c "-"%char then (true, r) else (false, str_of_nonneg z ++ rest)
+                 | EmptyString => (false, str_of_nonneg z ++ rest)
+                 end = (false, str_of_nonneg z ++ rest)).
+    { rewrite Eq. cbn [append]. now rewrite (is_digit_not_minus _ Hd). }
+    rewrite Hm. rewrite Sp. rewrite Eq in *. rewrite Lz. rewrite (follow_ok_float _ Hf).
+    rewrite V. reflexivity.
+Qed.
+
+(** the first character of a printed integer *)
+Lemma str_of_Z_head z :
+  exists c t, str_of_Z z = String c t /\ (Ascii.eqb c "-"%char = true \/ is_digit c = true).
+Proof.
+  unfold str_of_Z. destruct (z <? 0)%Z eqn:E.
+  - eexists _, _. split; [reflexivity|]. left. reflexivity.
+  - apply Z.ltb_ge in E. destruct (str_of_nonneg_spec z E) as (N & A & _).
+    destruct (str_of_nonneg z) as [|c t]; [congruence|].
+    exists c, t. split; [reflexivity|]. right. cbn in A. apply andb_true_iff in A. tauto.
+Qed.
+
+(** * Part 1c: nested induction principle for [val] *)
+Section ValInd.
+  Variable P : val -> Prop.
+  Hypothesis H_atom : forall v,
+    match v with
+    | VList _ | VTuple _ | VSet _ | VDict _ | VJsonify _ => False
+    | _ => True
+    end -> P v.
+  Hypothesis H_list : forall l, Forall P l -> P (VList l).
+  Hypothesis H_tuple : forall l, Forall P l -> P (VTuple l).
+  Hypothesis H_set : forall l, Forall P l -> P (VSet l).
+  Hypothesis H_dict : forall l,
+    Forall (fun kv : val * val => P (fst kv) /\ P (snd kv)) l -> P (VDict l).
+  Hypothesis H_jsonify : forall v, P v -> P (VJsonify v).
+
+  Fixpoint val_nested_ind (v : val) : P v :=
+    let fix go (l : list val) : Forall P l :=
+      match l with
+      | [] => Forall_nil _
+      | x :: r => Forall_cons x (val_nested_ind x) (go r)
+      end in
+    let fix god (l : list (val * val))
+      : Forall (fun kv : val * val => P (fst kv) /\ P (snd kv)) l :=
+      match l with
+      | [] => Forall_nil _
+      | (k, x) :: r => Forall_cons (k, x) (conj (val_nested_ind k) (val_nested_ind x)) (god r)
+      end in
+    match v with
+    | VList l => H_list l (go l)
+    | VTuple l => H_tuple l (go l)
+    | VSet l => H_set l (go l)
+    | VDict l => H_dict l (god l)
+    | VJsonify x => H_jsonify x (val_nested_ind x)
+    | VNone => H_atom VNone I
+    | VBool b => H_atom (VBool b) I
+    | VInt z => H_atom (VInt z) I
+    | VFloat q => H_atom (VFloat q) I
+    | VStr s => H_atom (VStr s) I
+    | VBytes s => H_atom (VBytes s) I
+    | VPy s e => H_atom (VPy s e) I
+    | VSic s => H_atom (VSic s) I
+    | VObj i => H_atom (VObj i) I
+    | VExn n m i => H_atom (VExn n m i) I
+    end.
+End ValInd.
+
+(** * Part 1d: the printer, unfolded into top-level functions *)
+Fixpoint jitems (lvl : nat) (l : list val) : string :=
+  match l with
+  | [] => EmptyString
+  | x :: r => "," ++ nl (S lvl) ++ jprint (S lvl) x ++ jitems lvl r
+  end.
+
+Fixpoint jpairs (lvl : nat) (l : list (val * val)) : string :=
+  match l with
+  | [] => EmptyString
+  | (k, x) :: r => "," ++ nl (S lvl) ++ jkey k ++ ": " ++ jprint (S lvl) x ++ jpairs lvl r
+  end.
+
+Lemma jprint_list lvl x r :
+  jprint lvl (VList (x :: r)) =
+  "[" ++ nl (S lvl) ++ jprint (S lvl) x ++ jitems lvl r ++ nl lvl ++ "]".
+Proof.
+  cbn [jprint]. do 4 f_equal.
+  induction r as [|y r IH]; [reflexivity|]. cbn [jitems]. rewrite <- IH. reflexivity.
+Qed.
+
+Lemma jprint_tuple lvl l : jprint lvl (VTuple l) = jprint lvl (VList l).
+Proof. reflexivity. Qed.
+
+Lemma jprint_dict lvl k x r :
+  jprint lvl (VDict ((k, x) :: r)) =
+  "{" ++ nl (S lvl) ++ jkey k ++ ": " ++ jprint (S lvl) x ++ jpairs lvl r ++ nl lvl ++ "}".
+Proof.
+  cbn [jprint]. do 6 f_equal.
+  induction r as [|[k' y] r IH]; [reflexivity|]. cbn [jpairs]. rewrite <- IH. reflexivity.
+Qed.
+
+(** * Part 1e: whitespace and first characters *)
+Definition head_nonws (s : string) : Prop :=
+  exists c t, s = String c t /\ is_ws c = false.
+
+Lemma skip_ws_nonws s : head_nonws s -> skip_ws s = s.
+Proof. intros (c & t & -> & H). cbn. now rewrite H. Qed.
+
+Lemma skip_ws_spaces n s : skip_ws (repeat_char " "%char n ++ s) = skip_ws s.
+Proof. induction n as [|n IH]; [reflexivity|]. cbn [repeat_char append skip_ws]. exact IH. Qed.
+
+Lemma skip_ws_nl k s : skip_ws (nl k ++ s) = skip_ws s.
+Proof. unfold nl. cbn [append skip_ws]. apply skip_ws_spaces. Qed.
+
+Lemma head_nonws_app a b : head_nonws a -> head_nonws (a ++ b).
+Proof. intros (c & t & -> & H). exists c, (t ++ b). split; [reflexivity|exact H]. Qed.
+
+Lemma head_lit c t : is_ws c = false -> head_nonws (String c t).
+Proof. intros H. exists c, t. split; [reflexivity|exact H]. Qed.
+
+(** the first character of a printed integer: what the scanner's dispatch does with it *)
+Lemma int_head_dispatch c :
+  Ascii.eqb c "-"%char = true \/ is_digit c = true ->
+  Ascii.eqb c dquote = false /\ Ascii.eqb c "["%char = false /\ Ascii.eqb c "{"%char = false /\
+  Ascii.eqb "n"%char c = false /\ Ascii.eqb "t"%char c = false /\ Ascii.eqb "f"%char c = false /\
+  is_ws c = false.
+Proof.
+  destruct c as [[] [] [] [] [] [] [] []]; intros [H|H]; try discriminate H;
+    repeat split; reflexivity.
+Qed.
+
+(** a printed value starts with a character that is neither blank nor a closing bracket *)
+Definition vstart (c : ascii) : bool :=
+  negb (is_ws c) && negb (Ascii.eqb c "]"%char) && negb (Ascii.eqb c "}"%char).
+
+Definition head_value (s : string) : Prop :=
+  exists c t, s = String c t /\ vstart c = true.
+
+Lemma head_value_nonws s : head_value s -> head_nonws s.
+Proof.
+  intros (c & t & -> & H). exists c, t. split; [reflexivity|].
+  unfold vstart in H. destruct (is_ws c); [discriminate H|reflexivity].
+Qed.
+
+Lemma head_vlit c t : vstart c = true -> head_value (String c t).
+Proof. intros H. exists c, t. split; [reflexivity|exact H]. Qed.
+
+Lemma int_head_vstart c :
+  Ascii.eqb c "-"%char = true \/ is_digit c = true -> vstart c = true.
+Proof.
+  destruct c as [[] [] [] [] [] [] [] []]; intros [H|H]; try discriminate H; reflexivity.
+Qed.
+
+Lemma jprint_head lvl v : json_rt v = true -> head_value (jprint lvl v).
+Proof.
+  destruct v; cbn [json_rt]; intros H; try discriminate H.
+  - apply head_vlit. reflexivity.
+  - destruct b; apply head_vlit; reflexivity.
+  - cbn [jprint]. destruct (str_of_Z_head z) as (c & t & -> & Hc).
+    apply head_vlit. now apply int_head_vstart.
+  - apply head_vlit. reflexivity.
+  - destruct l as [|x r]; [apply head_vlit; reflexivity|].
+    rewrite jprint_list. apply head_vlit. reflexivity.
+  - destruct l as [|[k x] r]; [apply head_vlit; reflexivity|].
+    rewrite jprint_dict. apply head_vlit. reflexivity.
+Qed.
+
+Lemma follow_ok_comma s : follow_ok (String ","%char s) = true.
+Proof. reflexivity. Qed.
+
+Lemma follow_ok_nl k s : follow_ok (nl k ++ s) = true.
+Proof. reflexivity. Qed.
+
+Lemma follow_ok_jitems lvl r s : follow_ok (jitems lvl r ++ nl lvl ++ s) = true.
+Proof. destruct r; [apply follow_ok_nl|reflexivity]. Qed.
+
+Lemma follow_ok_jpairs lvl r s : follow_ok (jpairs lvl r ++ nl lvl ++ s) = true.
+Proof. destruct r as [|[k x] r]; [apply follow_ok_nl|reflexivity]. Qed.
+
+(** * Part 1f: fuel *)
+Fixpoint need (v : val) : nat :=
+  let fix ns (l : list val) : nat :=
+    match l with [] => 1%nat | x :: r => S (need x + ns r) end in
+  let fix nd (l : list (val * val)) : nat :=
+    match l with [] => 1%nat | (_, x) :: r => S (need x + nd r) end in
+  match v with
+  | VList l | VTuple l => S (ns l)
+  | VDict l => S (nd l)
+  | _ => 1%nat
+  end.
+
+Fixpoint needs (l : list val) : nat :=
+  match l with [] => 1%nat | x :: r => S (need x + needs r) end.
+
+Fixpoint needd (l : list (val * val)) : nat :=
+  match l with [] => 1%nat | (_, x) :: r => S (need x + needd r) end.
+
+Lemma need_list l : need (VList l) = S (needs l).
+Proof.
+  reflexivity.
+Qed.
+
+Lemma need_tuple l : need (VTuple l) = S (needs l).
+Proof. exact (need_list l). Qed.
+
+Lemma need_dict l : need (VDict l) = S (needd l).
+Proof.
+  reflexivity.
+Qed.
+
+Lemma need_pos v : (1 <= need v)%nat.
+Proof. destruct v; cbn [need]; lia. Qed.
+
+(** * Part 1g: json_rt, unfolded *)
+Lemma json_rt_list l : json_rt (VList l) = true <-> Forall (fun x => json_rt x = true) l.
+Proof.
+  cbn [json_rt]. induction l as [|x r IH].
+  - split; [constructor|reflexivity].
+  - rewrite andb_true_iff, IH. split.
+    + intros [A B]. now constructor.
+    + intros H. inversion H; subst. tauto.
+Qed.
+
+Definition str_key (kv : val * val) : Prop := exists s, fst kv = VStr s.
+
+Lemma json_rt_dict l :
+  json_rt (VDict l) = true <->
+  Forall (fun kv : val * val => str_key kv /\ json_rt (snd kv) = true) l /\ uniq_keys l = true.
+Proof.
+  cbn [json_rt]. rewrite andb_true_iff.
+  apply and_iff_compat_r.
+  induction l as [|[k x] r IH].
+  - split; [constructor|reflexivity].
+  - rewrite !andb_true_iff, IH. split.
+    + intros [[A B] C]. constructor; [|exact C]. split; [|exact B].
+      destruct k; try discriminate A. now eexists.
+    + intros H. inversion H as [|? ? [[s Hs] B] C]; subst. cbn in Hs. subst k. tauto.
+Qed.
+
+(** * Part 1h: [dict(pairs)] of distinct string keys is the pair list itself *)
+Lemma val_eqb_str a b : val_eqb (VStr a) (VStr b) = String.eqb a b.
+Proof. reflexivity. Qed.
+
+Lemma dict_has_cons k k' x r : dict_has k ((k', x) :: r) = val_eqb k k' || dict_has k r.
+Proof. unfold dict_has. cbn [dict_get]. destruct (val_eqb k k'); reflexivity. Qed.
+
+Lemma dict_has_app k a b : dict_has k (a ++ b)%list = dict_has k a || dict_has k b.
+Proof.
+  induction a as [|[k' x] a IH]; [reflexivity|].
+  cbn [app]. rewrite !dict_has_cons, IH. now rewrite orb_assoc.
+Qed.
+
+Lemma dict_set_fresh k x d : dict_has k d = false -> dict_set k x d = (d ++ [(k, x)])%list.
+Proof.
+  induction d as [|[k' y] d IH]; intros H; [reflexivity|].
+  rewrite dict_has_cons in H. apply orb_false_iff in H. destruct H as [H1 H2].
+  cbn [dict_set app]. rewrite H1. now rewrite IH.
+Qed.
+
+Lemma dict_has_false_in k r kv : dict_has k r = false -> In kv r -> val_eqb k (fst kv) = false.
+Proof.
+  induction r as [|[k' y] r IH]; intros H Hin; [destruct Hin|].
+  rewrite dict_has_cons in H. apply orb_false_iff in H. destruct H as [H1 H2].
+  destruct Hin as [<-|Hin]; [exact H1|]. now apply IH.
+Qed.
+
+Lemma fold_set_fresh l :
+  Forall str_key l -> uniq_keys l = true ->
+  forall acc, Forall str_key acc ->
+  (forall kv, In kv l -> dict_has (fst kv) acc = false) ->
+  fold_left (fun a (kv : val * val) => dict_set (fst kv) (snd kv) a) l acc = (acc ++ l)%list.
+Proof.
+  induction l as [|[k x] r IH]; intros Hs Hu acc Ha Hf.
+  - cbn. now rewrite app_nil_r.
+  - cbn [fold_left fst snd]. cbn [uniq_keys] in Hu. apply andb_true_iff in Hu.
+    destruct Hu as [Hk Hu]. apply negb_true_iff in Hk.
+    inversion Hs as [|? ? [s Hks] Hs']; subst. cbn in Hks. subst k.
+    rewrite dict_set_fresh by (apply (Hf (VStr s, x)); now left).
+    rewrite IH; try assumption.
+    + rewrite <- app_assoc. reflexivity.
+    + apply Forall_app. split; [assumption|]. constructor; [now exists s|constructor].
+    + intros kv Hin. rewrite dict_has_app. rewrite (Hf kv) by now right.
+      cbn [orb]. rewrite dict_has_cons. cbn [dict_has dict_get]. rewrite orb_false_r.
+      rewrite Forall_forall in Hs'. destruct (Hs' kv Hin) as [s' Hs'k].
+      pose proof (dict_has_false_in _ _ _ Hk Hin) as Hne. rewrite Hs'k in *.
+      rewrite val_eqb_str in *. now rewrite String.eqb_sym.
+Qed.
+
+Lemma rebuild_dict_uniq l :
+  Forall str_key l -> uniq_keys l = true -> rebuild_dict l = l.
+Proof.
+  intros Hs Hu. unfold rebuild_dict. rewrite (fold_set_fresh l Hs Hu []); [reflexivity|constructor|].
+  intros; reflexivity.
+Qed.
+
+(** * Part 1i: one-step unfoldings of the parser *)
+Lemma parse_value_str f t :
+  parse_value (S f) (String dquote t) =
+  match parse_str_body t with Some (t', rest) => Some (VStr t', rest) | None => None end.
+Proof. reflexivity. Qed.
+
+Lemma parse_value_int f c t :
+  Ascii.eqb c "-"%char = true \/ is_digit c = true ->
+  parse_value (S f) (String c t) =
+  match parse_int (String c t) with Some (z, rest) => Some (VInt z, rest) | None => None end.
+Proof.
+  destruct c as [[] [] [] [] [] [] [] []]; intros [H|H]; try discriminate H; reflexivity.
+Qed.
+
+Lemma parse_value_list f Y :
+  parse_value (S f) (String "["%char Y) =
+  match skip_ws Y with
+  | EmptyString => None
+  | String c2 r2 =>
+      if Ascii.eqb c2 "]"%char then Some (VList [], r2)
+      else
+        match parse_value f (String c2 r2) with
+        | Some (x, r3) =>
+            match parse_elems f r3 with
+            | Some (xs, r4) => Some (VList (x :: xs), r4)
+            | None => None
+            end
+        | None => None
+        end
+  end.
+Proof. reflexivity. Qed.
+
+Lemma parse_value_dict f Y :
+  parse_value (S f) (String "{"%char Y) =
+  match skip_ws Y with
+  | EmptyString => None
+  | String c2 r2 =>
+      if Ascii.eqb c2 "}"%char then Some (VDict [], r2)
+      else
+        match parse_member (parse_value f) (String c2 r2) with
+        | Some (kx, r3) =>
+            match parse_members f r3 with
+            | Some (kxs, r4) => Some (VDict (rebuild_dict (kx :: kxs)), r4)
+            | None => None
+            end
+        | None => None
+        end
+  end.
+Proof. reflexivity. Qed.
+
+Lemma parse_elems_comma f Y :
+  parse_elems (S f) (String ","%char Y) =
+  match parse_value f (skip_ws Y) with
+  | Some (x, r2) =>
+      match parse_elems f r2 with Some (xs, r3) => Some (x :: xs, r3) | None => None end
+  | None => None
+  end.
+Proof. reflexivity. Qed.
+
+Lemma parse_elems_close f s rest :
+  skip_ws s = String "]"%char rest -> parse_elems (S f) s = Some ([], rest).
+Proof. intros H. cbn [parse_elems]. rewrite H. reflexivity. Qed.
+
+Lemma parse_members_comma f Y :
+  parse_members (S f) (String ","%char Y) =
+  match parse_member (parse_value f) (skip_ws Y) with
+  | Some (kx, r2) =>
+      match parse_members f r2 with Some (kxs, r3) => Some (kx :: kxs, r3) | None => None end
+  | None => None
+  end.
+Proof. reflexivity. Qed.
+
+Lemma parse_members_close f s rest :
+  skip_ws s = String "}"%char rest -> parse_members (S f) s = Some ([], rest).
+Proof. intros H. cbn [parse_members]. rewrite H. reflexivity. Qed.
+
+Lemma parse_member_colon pv k Z :
+  parse_member pv (String dquote (json_str_body k ++ String dquote (String ":"%char (String " "%char Z)))) =
+  match pv (skip_ws Z) with Some (x, r3) => Some ((VStr k, x), r3) | None => None end.
+Proof. cbn [parse_member]. rewrite Ascii.eqb_refl, parse_str_body_print. reflexivity. Qed.
+
+(** * Part 1j: the round trip, at any indentation level, inside any context *)
+Definition rt_at (v : val) : Prop :=
+  json_rt v = true ->
+  forall lvl fuel rest, (need v <= fuel)%nat -> follow_ok rest = true ->
+    parse_value fuel (jprint lvl v ++ rest) = Some (v, rest).
+
+Lemma jitems_cons_app lvl x r s :
+  jitems lvl (x :: r) ++ s = String ","%char (nl (S lvl) ++ jprint (S lvl) x ++ jitems lvl r ++ s).
+Proof. cbn [jitems append]. now rewrite !append_assoc_s. Qed.
+
+Lemma jpairs_cons_app lvl k x r s :
+  jpairs lvl ((VStr k, x) :: r) ++ s =
+  String ","%char (nl (S lvl) ++ String dquote (json_str_body k ++ String dquote
+     (String ":"%char (String " "%char (jprint (S lvl) x ++ jpairs lvl r ++ s))))).
+Proof.
+  cbn [jpairs jkey]. unfold jquote.
+  repeat (first [rewrite append_assoc_s | progress cbn [append]]). reflexivity.
+Qed.
+
+Lemma value_then rest0 lvl x f :
+  rt_at x -> json_rt x = true -> (need x <= f)%nat -> follow_ok rest0 = true ->
+  parse_value f (skip_ws (nl lvl ++ jprint lvl x ++ rest0)) = Some (x, rest0).
+Proof.
+  intros IH Hx Hf Hfol. rewrite skip_ws_nl.
+  rewrite skip_ws_nonws by (apply head_nonws_app, head_value_nonws, jprint_head, Hx).
+  now apply IH.
+Qed.
+
+Lemma parse_elems_print lvl r :
+  Forall rt_at r -> Forall (fun x => json_rt x = true) r ->
+  forall fuel rest, (needs r <= fuel)%nat ->
+  parse_elems fuel (jitems lvl r ++ nl lvl ++ String "]"%char rest) = Some (r, rest).
+Proof.
+  induction r as [|x r IHr]; intros IH Hrt fuel rest Hfuel.
+  - cbn [needs] in Hfuel. destruct fuel as [|f]; [lia|].
+    apply parse_elems_close. cbn [jitems append]. rewrite skip_ws_nl.
+    apply skip_ws_nonws. apply head_lit. reflexivity.
+  - cbn [needs] in Hfuel. destruct fuel as [|f]; [lia|].
+    inversion IH as [|? ? IHx IH']; subst. inversion Hrt as [|? ? Hx Hrt']; subst.
+    rewrite jitems_cons_app, parse_elems_comma.
+    rewrite (value_then _ (S lvl) x f IHx Hx) by (try lia; apply follow_ok_jitems).
+    rewrite IHr by (try assumption; lia). reflexivity.
+Qed.
+
+Lemma parse_members_print lvl r :
+  Forall (fun kv : val * val => rt_at (snd kv)) r ->
+  Forall (fun kv : val * val => str_key kv /\ json_rt (snd kv) = true) r ->
+  forall fuel rest, (needd r <= fuel)%nat ->
+  parse_members fuel (jpairs lvl r ++ nl lvl ++ String "}"%char rest) = Some (r, rest).
+Proof.
+  induction r as [|[k x] r IHr]; intros IH Hrt fuel rest Hfuel.
+  - cbn [needd] in Hfuel. destruct fuel as [|f]; [lia|].
+    apply parse_members_close. cbn [jpairs append]. rewrite skip_ws_nl.
+    apply skip_ws_nonws. apply head_lit. reflexivity.
+  - cbn [needd] in Hfuel. destruct fuel as [|f]; [lia|].
+    inversion IH as [|? ? IHx IH']; subst. inversion Hrt as [|? ? [[s Hs] Hx] Hrt']; subst.
+    cbn [fst snd] in *. subst k.
+    rewrite jpairs_cons_app, parse_members_comma.
+    rewrite skip_ws_nl. rewrite skip_ws_nonws by (apply head_lit; reflexivity).
+    rewrite parse_member_colon.
+    rewrite skip_ws_nonws by (apply head_nonws_app, head_value_nonws, jprint_head, Hx).
+    rewrite (IHx Hx) by (try lia; apply follow_ok_jpairs).
+    rewrite IHr by (try assumption; lia). reflexivity.
+Qed.
+
+Lemma rt_at_all v : rt_at v.
+Proof.
+  induction v using val_nested_ind; unfold rt_at.
+  - (* atoms *)
+    destruct v; try contradiction; cbn [json_rt]; intros Hrt lvl fuel rest Hfuel Hfol;
+      try discriminate Hrt; (destruct fuel as [|f]; [cbn [need] in Hfuel; lia|]).
+    + reflexivity.
+    + destruct b; reflexivity.
+    + cbn [jprint]. destruct (str_of_Z_head z) as (c & t & E & Hc).
+      pose proof (parse_int_print z rest Hfol) as Hp. rewrite E in *. cbn [append] in *.
+      rewrite (parse_value_int f c _ Hc). now rewrite Hp.
+    + cbn [jprint]. unfold jquote. cbn [append]. rewrite append_assoc_s. cbn [append].
+      rewrite parse_value_str, parse_str_body_print. reflexivity.
+  - (* list *)
+    intros Hrt lvl fuel rest Hfuel Hfol. rewrite json_rt_list in Hrt. rewrite need_list in Hfuel.
+    destruct fuel as [|f]; [lia|]. destruct l as [|x r]; [reflexivity|].
+    inversion H as [|? ? IHx IH']; subst. inversion Hrt as [|? ? Hx Hrt']; subst.
+    cbn [needs] in Hfuel.
+    rewrite jprint_list. cbn [append]. rewrite !append_assoc_s. cbn [append].
+    rewrite parse_value_list. rewrite skip_ws_nl.
+    destruct (jprint_head (S lvl) x Hx) as (c2 & r2 & E & Hc).
+    assert (Hnw : is_ws c2 = false /\ Ascii.eqb c2 "]"%char = false).
+    { unfold vstart in Hc. destruct (is_ws c2); [discriminate Hc|].
+      destruct (Ascii.eqb c2 "]"%char); [discriminate Hc|]. split; reflexivity. }
+    destruct Hnw as [Hw Hb].
+    pose proof (IHx Hx (S lvl) f (jitems lvl r ++ nl lvl ++ String "]"%char rest)
+                  ltac:(lia) (follow_ok_jitems _ _ _)) as Hv.
+    rewrite E in *. cbn [append skip_ws] in *. rewrite Hw, Hb, Hv.
+    rewrite (parse_elems_print lvl r IH' Hrt') by lia. reflexivity.
+  - (* tuple *) intros Hrt. discriminate Hrt.
+  - (* set *) intros Hrt. discriminate Hrt.
+  - (* dict *)
+    intros Hrt lvl fuel rest Hfuel Hfol. rewrite json_rt_dict in Hrt. destruct Hrt as [Hrt Hu].
+    rewrite need_dict in Hfuel.
+    destruct fuel as [|f]; [lia|]. destruct l as [|[k x] r]; [reflexivity|].
+    assert (Hkeys : Forall str_key ((k, x) :: r)).
+    { eapply Forall_impl; [|exact Hrt]. intros kv [A _]. exact A. }
+    inversion H as [|? ? [_ IHx] IH']; subst.
+    inversion Hrt as [|? ? [[s Hs] Hx] Hrt']; subst. cbn [fst snd] in *. subst k.
+    cbn [needd] in Hfuel.
+    rewrite jprint_dict. cbn [append jkey]. unfold jquote. rewrite !append_assoc_s.
+    cbn [append]. rewrite !append_assoc_s. cbn [append].
+    rewrite parse_value_dict. rewrite skip_ws_nl. cbn [skip_ws].
+    change (is_ws dquote) with false. cbv iota.
+    change (Ascii.eqb dquote "}"%char) with false. cbv iota.
+    rewrite parse_member_colon.
+    rewrite skip_ws_nonws by (apply head_nonws_app, head_value_nonws, jprint_head, Hx).
+    rewrite (IHx Hx) by (try lia; apply follow_ok_jpairs).
+    assert (IHr : Forall (fun kv : val * val => rt_at (snd kv)) r).
+    { eapply Forall_impl; [|exact IH']. intros kv [_ B]. exact B. }
+    rewrite (parse_members_print lvl r IHr Hrt') by lia.
+    rewrite rebuild_dict_uniq by assumption. reflexivity.
+  - (* jsonify *) intros Hrt. discriminate Hrt.
+Qed.
+
+(** * Part 1k: the text is long enough to serve as fuel *)
+Lemma length_app a b : String.length (a ++ b) = (String.length a + String.length b)%nat.
+Proof. induction a as [|c a IH]; cbn; [reflexivity|]. now rewrite IH. Qed.
+
+Lemma nl_length k : (1 <= String.length (nl k))%nat.
+Proof. unfold nl. cbn [String.length]. lia. Qed.
+
+Definition fuel_ok (v : val) : Prop :=
+  forall lvl, (need v <= S (String.length (jprint lvl v)))%nat.
+
+Lemma needs_le lvl r : Forall fuel_ok r -> (needs r <= S (String.length (jitems lvl r)))%nat.
+Proof.
+  induction 1 as [|x r Hx Hr IH]; cbn [needs jitems]; [cbn; lia|].
+  cbn [append String.length]. rewrite !length_app.
+  pose proof (Hx (S lvl)). pose proof (nl_length (S lvl)). lia.
+Qed.
+
+Lemma needd_le lvl r :
+  Forall (fun kv : val * val => fuel_ok (fst kv) /\ fuel_ok (snd kv)) r ->
+  (needd r <= S (String.length (jpairs lvl r)))%nat.
+Proof.
+  induction 1 as [|[k x] r [_ Hx] Hr IH]; cbn [needd jpairs]; [cbn; lia|].
+  repeat (first [rewrite length_app | progress cbn [append String.length]]). cbn [snd] in Hx.
+  pose proof (Hx (S lvl)). pose proof (nl_length (S lvl)). lia.
+Qed.
+
+Lemma fuel_ok_all v : fuel_ok v.
+Proof.
+  induction v using val_nested_ind; unfold fuel_ok; intros lvl.
+  - destruct v; try contradiction; cbn [need]; lia.
+  - rewrite need_list. destruct l as [|x r]; [cbn; lia|]. inversion H as [|? ? Hx Hr]; subst.
+    rewrite jprint_list. cbn [needs append String.length]. rewrite !length_app.
+    pose proof (Hx (S lvl)). pose proof (needs_le lvl r Hr).
+    pose proof (nl_length (S lvl)). pose proof (nl_length lvl). cbn [String.length]. lia.
+  - rewrite need_tuple, jprint_tuple. destruct l as [|x r]; [cbn; lia|].
+    inversion H as [|? ? Hx Hr]; subst.
+    rewrite jprint_list. cbn [needs append String.length]. rewrite !length_app.
+    pose proof (Hx (S lvl)). pose proof (needs_le lvl r Hr).
+    pose proof (nl_length (S lvl)). pose proof (nl_length lvl). cbn [String.length]. lia.
+  - cbn [need]. lia.
+  - rewrite need_dict. destruct l as [|[k x] r]; [cbn; lia|].
+    inversion H as [|? ? [_ Hx] Hr]; subst. cbn [snd] in Hx.
+    rewrite jprint_dict. cbn [needd].
+    repeat (first [rewrite length_app | progress cbn [append String.length]]).
+    pose proof (Hx (S lvl)). pose proof (needd_le lvl r Hr).
+    pose proof (nl_length (S lvl)). pose proof (nl_length lvl). lia.
+  - cbn [need]. lia.
+Qed.
+
+(** * Part 1l: the theorem *)
+Lemma json_roundtrip_at lvl v : json_rt v = true -> json_parse (jprint lvl v) = Some v.
+Proof.
+  intros Hrt. unfold json_parse.
+  rewrite skip_ws_nonws by (apply head_value_nonws, jprint_head, Hrt).
+  rewrite <- (append_nil_r (jprint lvl v)) at 2.
+  rewrite (rt_at_all v Hrt lvl _ EmptyString (fuel_ok_all v lvl) eq_refl). reflexivity.
+Qed.
+
+Lemma json_ok_of_rt v : json_rt v = true -> json_ok v = true.
+Proof.
+  induction v using val_nested_ind; intros Hrt.
+  - destruct v; try contradiction; try discriminate Hrt; reflexivity.
+  - rewrite json_rt_list in Hrt. cbn [json_ok].
+    induction H as [|x r Hx Hr IH]; [reflexivity|]. inversion Hrt; subst.
+    rewrite Hx by assumption. cbn [andb]. now apply IH.
+  - discriminate Hrt.
+  - discriminate Hrt.
+  - rewrite json_rt_dict in Hrt. destruct Hrt as [Hrt _]. cbn [json_ok].
+    induction H as [|[k x] r [_ Hx] Hr IH]; [reflexivity|].
+    inversion Hrt as [|? ? [[s Hs] Hxr] Hrt']; subst. cbn [fst snd] in *. subst k.
+    rewrite Hx by assumption. cbn [jkey_ok andb]. now apply IH.
+  - discriminate Hrt.
+Qed.
+
+Lemma json_print_parse v :
+  json_representable v -> exists s, json_print v = Some s /\ json_parse s = Some v.
+Proof.
+  intros Hrt. exists (jprint 0 v). unfold json_print.
+  rewrite (json_ok_of_rt v Hrt). split; [reflexivity|]. now apply json_roundtrip_at.
+Qed.
+
+(** the excluded shapes really do not come back unchanged *)
+Lemma json_tuple_not_roundtrip :
+  exists v, json_ok v = true /\ json_parse (jprint 0 v) <> Some v.
+Proof. exists (VTuple [VInt 1; VInt 2]). split; [reflexivity|]. vm_compute. discriminate. Qed.
+
+Lemma json_int_key_not_roundtrip :
+  exists v, json_ok v = true /\ json_parse (jprint 0 v) <> Some v.
+Proof. exists (VDict [(VInt 1, VStr "a")]). split; [reflexivity|]. vm_compute. discriminate. Qed.
+
+(** * Part 2: step-level composition *)
+Lemma fs_read_write p t files : fs_read p (fs_write p t files) = Some t.
+Proof.
+  induction files as [|[q u] r IH]; cbn [fs_write fs_read].
+  - now rewrite String.eqb_refl.
+  - destruct (String.eqb p q) eqn:E; cbn [fs_read]; rewrite E; [reflexivity|exact IH].
+Qed.
+
+Definition FUEL1 : nat := pred FUEL.
+
+Lemma format_plain_key ctx k r : no_brace k = true -> fmt_iter ctx FUEL1 (VStr k) r = Ok (VStr k).
+Proof. intros H. apply fmt_iter_plain. exact H. Qed.
+
+Lemma format_dict1 ctx k a a' :
+  no_brace k = true ->
+  format_value FUEL1 ctx a = Ok a' ->
+  format_value FUEL ctx (VDict [(VStr k, a)]) = Ok (VDict [(VStr k, a')]).
+Proof.
+  intros Hk Ha. unfold format_value in *. change FUEL with (S FUEL1).
+  cbn [fmt_iter iter_body mapM fst snd]. rewrite (format_plain_key ctx k false Hk), Ha.
+  reflexivity.
+Qed.
+
+Lemma format_dict2 ctx k1 k2 a b a' b' :
+  no_brace k1 = true -> no_brace k2 = true -> String.eqb k2 k1 = false ->
+  format_value FUEL1 ctx a = Ok a' ->
+  format_value FUEL1 ctx b = Ok b' ->
+  format_value FUEL ctx (VDict [(VStr k1, a); (VStr k2, b)])
+  = Ok (VDict [(VStr k1, a'); (VStr k2, b')]).
+Proof.
+  intros H1 H2 Hne Ha Hb. unfold format_value in *. change FUEL with (S FUEL1).
+  cbn [fmt_iter iter_body mapM fst snd].
+  rewrite (format_plain_key ctx k1 false H1), Ha, (format_plain_key ctx k2 false H2), Hb.
+  cbn [bind]. unfold rebuild_dict. cbn [fold_left fst snd dict_set].
+  rewrite val_eqb_str, Hne. reflexivity.
+Qed.
+
+Lemma sget_first k v d : sget k ((VStr k, v) :: d) = Some v.
+Proof. unfold sget. cbn [dict_get]. now rewrite val_eqb_str, String.eqb_refl. Qed.
+
+Lemma sget_second k k1 v1 v d :
+  String.eqb k k1 = false -> sget k ((VStr k1, v1) :: (VStr k, v) :: d) = Some v.
+Proof.
+  intros H. unfold sget. cbn [dict_get]. now rewrite !val_eqb_str, H, String.eqb_refl.
+Qed.
+
+Lemma sget_absent1 k k1 v1 : String.eqb k k1 = false -> sget k [(VStr k1, v1)] = None.
+Proof. intros H. unfold sget. cbn [dict_get]. now rewrite val_eqb_str, H. Qed.
+
+Lemma get_formatted_ok ctx key v v' :
+  format_value FUEL ctx v = Ok v' -> get_formatted ctx key v = Ok v'.
+Proof. intros H. unfold get_formatted. now rewrite H. Qed.
+
+Section WriteFetch.
+  Variable f : fmt.
+  Variable c : codec.
+  (** the representable payloads of this format *)
+  Variable dom : val -> Prop.
+  (** document equality: [eq] for JSON and YAML; TOML may reorder the keys of a table *)
+  Variable eqv : val -> val -> Prop.
+  Hypothesis eqv_shape : forall a b, eqv a b -> has_len a = has_len b /\ is_mapping a = is_mapping b.
+  (** the round-trip law of the (third-party) serialiser / parser pair *)
+  Hypothesis law : forall v, dom v ->
+    exists s v', c_print c v = Ok s /\ c_parse c s = Ok v' /\ eqv v' v.
+
+  (** writing: the step's input is formatted once; the formatted payload goes through the
+      serialiser to the formatted path *)
+  Lemma write_step_ok ctx files p_raw pl_raw path fp :
+    sget (write_key f) ctx = Some (VDict [(VStr "path", p_raw); (VStr "payload", pl_raw)]) ->
+    format_value FUEL1 ctx p_raw = Ok (VStr path) ->
+    format_value FUEL1 ctx pl_raw = Ok fp ->
+    (f = FToml -> py_truth fp = true) ->
+    dom fp ->
+    exists s v', c_print c fp = Ok s /\ c_parse c s = Ok v' /\ eqv v' fp /\
+      write_step f c ctx files = Ok (fs_write path s files).
+  Proof.
+    intros Hget Hp Hpl Htoml Hdom.
+    destruct (law fp Hdom) as (s & v' & Hprint & Hparse & Heq).
+    exists s, v'. repeat split; try assumption.
+    unfold write_step, assert_has_value. rewrite Hget. cbn [bind].
+    rewrite (get_formatted_ok _ _ _ _
+               (format_dict2 ctx "path" "payload" _ _ _ _ eq_refl eq_refl eq_refl Hp Hpl)).
+    cbn [bind]. rewrite sget_first. cbn [bind].
+    rewrite (sget_second "payload" "path") by reflexivity.
+    assert (Hpay : (match f with
+                    | FToml => if py_truth fp then Ok fp
+                               else Err E_KeyNoValue "payload must have a value to write to output TOML document."
+                    | _ => Ok fp
+                    end) = Ok fp).
+    { destruct f; try reflexivity. now rewrite Htoml. }
+    rewrite Hpay. cbn [bind]. rewrite Hprint. reflexivity.
+  Qed.
+
+  (** fetch with a (truthy) key: the parsed document is stored under that key *)
+  Lemma fetch_step_key ctx files p_raw k_raw path key s v' :
+    sget (fetch_key f) ctx = Some (VDict [(VStr "path", p_raw); (VStr "key", k_raw)]) ->
+    format_value FUEL1 ctx p_raw = Ok (VStr path) ->
+    format_value FUEL1 ctx k_raw = Ok (VStr key) -> key <> EmptyString ->
+    fs_read path files = Some s -> c_parse c s = Ok v' ->
+    fetch_step f c ctx files =
+      if has_len v' then Ok (dict_set (VStr key) v' ctx)
+      else Err "TypeError" ("object of type '" ++ type_name v' ++ "' has no len()").
+  Proof.
+    intros Hget Hp Hk Hne Hread Hparse.
+    unfold fetch_step, assert_has_value. rewrite Hget. cbn [bind].
+    rewrite (get_formatted_ok _ _ _ _
+               (format_dict2 ctx "path" "key" _ _ _ _ eq_refl eq_refl eq_refl Hp Hk)).
+    cbn [bind]. rewrite sget_first. cbn [bind].
+    rewrite (sget_second "key" "path") by reflexivity.
+    rewrite Hread, Hparse. cbn [bind py_truth].
+    assert (Ht : negb (String.eqb key "") = true).
+    { apply negb_true_iff. now apply String.eqb_neq. }
+    rewrite Ht. cbn [bind]. reflexivity.
+  Qed.
+
+  (** fetch without a key: the parsed mapping is merged into the context root *)
+  Lemma fetch_step_root ctx files p_raw path s pl :
+    sget (fetch_key f) ctx = Some (VDict [(VStr "path", p_raw)]) ->
+    format_value FUEL1 ctx p_raw = Ok (VStr path) ->
+    fs_read path files = Some s -> c_parse c s = Ok (VDict pl) ->
+    fetch_step f c ctx files = Ok (dict_update ctx pl).
+  Proof.
+    intros Hget Hp Hread Hparse.
+    unfold fetch_step, assert_has_value. rewrite Hget. cbn [bind].
+    rewrite (get_formatted_ok _ _ _ _ (format_dict1 ctx "path" _ _ eq_refl Hp)).
+    cbn [bind]. rewrite sget_first. cbn [bind].
+    rewrite (sget_absent1 "key" "path") by reflexivity.
+    rewrite Hread, Hparse. reflexivity.
+  Qed.
+
+  (** fetch ∘ write, with a key *)
+  Lemma write_fetch_key ctx1 ctx2 files p_raw pl_raw p2_raw k_raw path fp key :
+    sget (write_key f) ctx1 = Some (VDict [(VStr "path", p_raw); (VStr "payload", pl_raw)]) ->
+    format_value FUEL1 ctx1 p_raw = Ok (VStr path) ->
+    format_value FUEL1 ctx1 pl_raw = Ok fp ->
+    (f = FToml -> py_truth fp = true) ->
+    dom fp -> has_len fp = true ->
+    sget (fetch_key f) ctx2 = Some (VDict [(VStr "path", p2_raw); (VStr "key", k_raw)]) ->
+    format_value FUEL1 ctx2 p2_raw = Ok (VStr path) ->
+    format_value FUEL1 ctx2 k_raw = Ok (VStr key) -> key <> EmptyString ->
+    exists files' v',
+      write_step f c ctx1 files = Ok files' /\
+      fetch_step f c ctx2 files' = Ok (dict_set (VStr key) v' ctx2) /\
+      eqv v' fp.
+  Proof.
+    intros Hw Hp Hpl Ht Hdom Hlen Hf Hp2 Hk Hne.
+    destruct (write_step_ok ctx1 files _ _ _ _ Hw Hp Hpl Ht Hdom)
+      as (s & v' & _ & Hparse & Heq & Hws).
+    exists (fs_write path s files), v'. split; [exact Hws|]. split; [|exact Heq].
+    rewrite (fetch_step_key ctx2 _ _ _ path key s v' Hf Hp2 Hk Hne (fs_read_write _ _ _) Hparse).
+    destruct (eqv_shape _ _ Heq) as [Hl _]. now rewrite Hl, Hlen.
+  Qed.
+
+  (** fetch ∘ write, no key: a mapping payload is merged at the root *)
+  Lemma write_fetch_root ctx1 ctx2 files p_raw pl_raw p2_raw path fp :
+    sget (write_key f) ctx1 = Some (VDict [(VStr "path", p_raw); (VStr "payload", pl_raw)]) ->
+    format_value FUEL1 ctx1 p_raw = Ok (VStr path) ->
+    format_value FUEL1 ctx1 pl_raw = Ok fp ->
+    (f = FToml -> py_truth fp = true) ->
+    dom fp -> is_mapping fp = true ->
+    sget (fetch_key f) ctx2 = Some (VDict [(VStr "path", p2_raw)]) ->
+    format_value FUEL1 ctx2 p2_raw = Ok (VStr path) ->
+    exists files' pl',
+      write_step f c ctx1 files = Ok files' /\
+      fetch_step f c ctx2 files' = Ok (dict_update ctx2 pl') /\
+      eqv (VDict pl') fp.
+  Proof.
+    intros Hw Hp Hpl Ht Hdom Hmap Hf Hp2.
+    destruct (write_step_ok ctx1 files _ _ _ _ Hw Hp Hpl Ht Hdom)
+      as (s & v' & _ & Hparse & Heq & Hws).
+    destruct (eqv_shape _ _ Heq) as [_ Hm]. rewrite Hmap in Hm.
+    destruct v' as [| | | | | | | | |pl'| | | | |]; try discriminate Hm.
+    exists (fs_write path s files), pl'. split; [exact Hws|]. split; [|exact Heq].
+    apply (fetch_step_root ctx2 _ _ path s pl' Hf Hp2 (fs_read_write _ _ _) Hparse).
+  Qed.
+
+  (** the file context parser on the written file returns the document *)
+  Lemma write_file_parser ctx1 files p_raw pl_raw path fp :
+    sget (write_key f) ctx1 = Some (VDict [(VStr "path", p_raw); (VStr "payload", pl_raw)]) ->
+    format_value FUEL1 ctx1 p_raw = Ok (VStr path) ->
+    format_value FUEL1 ctx1 pl_raw = Ok fp ->
+    (f = FToml -> py_truth fp = true) ->
+    dom fp -> is_mapping fp = true ->
+    exists files' v',
+      write_step f c ctx1 files = Ok files' /\
+      file_parser f c [path] files' = Ok (Some v') /\
+      eqv v' fp.
+  Proof.
+    intros Hw Hp Hpl Ht Hdom Hmap.
+    destruct (write_step_ok ctx1 files _ _ _ _ Hw Hp Hpl Ht Hdom)
+      as (s & v' & _ & Hparse & Heq & Hws).
+    exists (fs_write path s files), v'. split; [exact Hws|]. split; [|exact Heq].
+    unfold file_parser. cbn [join]. rewrite fs_read_write, Hparse. cbn [bind].
+    destruct (eqv_shape _ _ Heq) as [_ Hm]. rewrite Hmap in Hm. rewrite Hm.
+    destruct f; reflexivity.
+  Qed.
+End WriteFetch.
+
+(** ** closed instance: JSON *)
+Lemma json_law : forall v, json_representable v ->
+  exists s v', c_print json_codec v = Ok s /\ c_parse json_codec s = Ok v' /\ v' = v.
+Proof.
+  intros v Hv. destruct (json_print_parse v Hv) as (s & Hp & Hq).
+  exists s, v. cbn [json_codec c_print c_parse]. rewrite Hp, Hq. repeat split; reflexivity.
+Qed.
+
+Lemma eq_shape : forall a b : val, a = b -> has_len a = has_len b /\ is_mapping a = is_mapping b.
+Proof. intros a b ->. split; reflexivity. Qed.
+
+(** * Part 3: fileformat = every string node replaced by its formatted value *)
+Section StringNodes.
+  Variable ctx : dict.
+  Variable r : bool.
+
+  (** [fmt_nodes d d']: [d'] is [d] with each string node (mapping keys included)
+      replaced by the value the formatter gives for that string, every other scalar
+      unchanged, and the containers rebuilt in the same order ([rebuild_dict]: should two
+      formatted keys coincide, the later value wins at the first position, as in
+      Python's dict(generator)). *)
+  Inductive fmt_nodes : val -> val -> Prop :=
+  | FN_leaf v : is_leaf v = true -> fmt_nodes v v
+  | FN_str n s v' : fmt_iter ctx n (VStr s) r = Ok v' -> fmt_nodes (VStr s) v'
+  | FN_list l l' : Forall2 fmt_nodes l l' -> fmt_nodes (VList l) (VList l')
+  | FN_dict l l' :
+      Forall2 (fun kv kv' : val * val =>
+                 fmt_nodes (fst kv) (fst kv') /\ fmt_nodes (snd kv) (snd kv')) l l' ->
+      fmt_nodes (VDict l) (VDict (rebuild_dict l')).
+
+  Lemma is_doc_list l : is_doc (VList l) = true <-> Forall (fun x => is_doc x = true) l.
+  Proof.
+    cbn [is_doc]. induction l as [|x l IH].
+    - split; [constructor|reflexivity].
+    - rewrite andb_true_iff, IH. split.
+      + intros [A B]. now constructor.
+      + intros H. inversion H; subst. tauto.
+  Qed.
+
+  Lemma is_doc_dict l :
+    is_doc (VDict l) = true <->
+    Forall (fun kv : val * val => is_doc (fst kv) = true /\ is_doc (snd kv) = true) l.
+  Proof.
+    cbn [is_doc]. induction l as [|[k x] l IH].
+    - split; [constructor|reflexivity].
+    - rewrite !andb_true_iff, IH. split.
+      + intros [[A B] C]. constructor; [split; assumption|exact C].
+      + intros H. inversion H as [|? ? [A B] C]; subst. tauto.
+  Qed.
+
+  Lemma fmt_iter_string_nodes n v v' :
+    is_doc v = true -> fmt_iter ctx n v r = Ok v' -> fmt_nodes v v'.
+  Proof.
+    revert v v'. induction n as [|n IH]; intros v v' Hdoc H; [discriminate H|].
+    destruct v; try discriminate Hdoc.
+    - rewrite fmt_iter_leaf in H by reflexivity. inversion H; subst. now constructor.
+    - rewrite fmt_iter_leaf in H by reflexivity. inversion H; subst. now constructor.
+    - rewrite fmt_iter_leaf in H by reflexivity. inversion H; subst. now constructor.
+    - rewrite fmt_iter_leaf in H by reflexivity. inversion H; subst. now constructor.
+    - eapply FN_str. exact H.
+    - apply fmt_iter_list in H. destruct H as (l' & -> & F).
+      rewrite is_doc_list in Hdoc. constructor.
+      induction F as [|x y l l' Hxy F IHF]; [constructor|].
+      inversion Hdoc; subst. constructor; [now apply IH|now apply IHF].
+    - apply fmt_iter_dict in H. destruct H as (l' & -> & F).
+      rewrite is_doc_dict in Hdoc. constructor.
+      induction F as [|kv kv' l l' [Hk Hx] F IHF]; [constructor|].
+      inversion Hdoc as [|? ? [Dk Dx] Hdoc']; subst.
+      constructor; [split; now apply IH|now apply IHF].
+  Qed.
+End StringNodes.
+
+Lemma fileformat_obj_spec c ctx text out :
+  fileformat_obj c ctx text = Ok out ->
+  exists doc doc',
+    c_parse c text = Ok doc /\ format_value FUEL ctx doc = Ok doc' /\ c_print c doc' = Ok out /\
+    (is_doc doc = true -> fmt_nodes ctx false doc doc').
+Proof.
+  unfold fileformat_obj. intros H.
+  destruct (c_parse c text) as [doc| |] eqn:Hp; cbn [bind] in H; try discriminate H.
+  destruct (format_value FUEL ctx doc) as [doc'| |] eqn:Hf; cbn [bind] in H; try discriminate H.
+  exists doc, doc'. repeat split; try assumption.
+  intros Hdoc. eapply fmt_iter_string_nodes; eassumption.
+Qed.
+
+(** with the round-trip law on the formatted document: parsing the output file gives
+    the input document with every string node formatted *)
+Lemma fileformat_roundtrip c (dom : val -> Prop) (eqv : val -> val -> Prop) :
+  (forall v, dom v -> exists s v', c_print c v = Ok s /\ c_parse c s = Ok v' /\ eqv v' v) ->
+  forall ctx text out,
+  fileformat_obj c ctx text = Ok out ->
+  exists doc doc',
+    c_parse c text = Ok doc /\ format_value FUEL ctx doc = Ok doc' /\
+    (is_doc doc = true -> fmt_nodes ctx false doc doc') /\
+    (dom doc' -> exists doc'', c_parse c out = Ok doc'' /\ eqv doc'' doc').
+Proof.
+  intros law ctx text out H.
+  destruct (fileformat_obj_spec c ctx text out H) as (doc & doc' & Hp & Hf & Hpr & Hn).
+  exists doc, doc'. repeat split; try assumption.
+  intros Hd. destruct (law doc' Hd) as (s & v' & Hs & Hv & He).
+  assert (s = out) by congruence. subst s. exists v'. split; assumption.
+Qed.
+
+Lemma fileformat_json ctx text out :
+  fileformat_obj json_codec ctx text = Ok out ->
+  exists doc doc',
+    json_parse text = Some doc /\ format_value FUEL ctx doc = Ok doc' /\
+    json_print doc' = Some out /\
+    (is_doc doc = true -> fmt_nodes ctx false doc doc') /\
+    (json_representable doc' -> json_parse out = Some doc').
+Proof.
+  intros H. destruct (fileformat_obj_spec _ _ _ _ H) as (doc & doc' & Hp & Hf & Hpr & Hn).
+  exists doc, doc'. cbn [json_codec c_parse c_print] in Hp, Hpr.
+  destruct (json_parse text) as [d|] eqn:E1; try discriminate Hp. inversion Hp; subst d.
+  destruct (json_print doc') as [o|] eqn:E2; try discriminate Hpr. cbn in Hpr. inversion Hpr; subst o.
+  repeat split; try assumption.
+  intros Hrt. destruct (json_print_parse doc' Hrt) as (s & Hs & Hq). congruence.
+Qed.
+
+(** the step: the file at [out] (or at [in] when no [out] is given) ends up holding
+    dump (format (load in-file)) *)
+Lemma fileformat_step_inplace f c ctx files p_raw path text out :
+  sget (format_key f) ctx = Some (VDict [(VStr "in", p_raw)]) ->
+  format_value FUEL1 ctx p_raw = Ok (VStr path) ->
+  fs_read path files = Some text ->
+  fileformat_obj c ctx text = Ok out ->
+  fileformat_step f c ctx files = Ok (fs_write path out files).
+Proof.
+  intros Hget Hp Hread Hobj.
+  unfold fileformat_step, assert_has_value. rewrite Hget. cbn [bind].
+  rewrite (get_formatted_ok _ _ _ _ (format_dict1 ctx "in" _ _ eq_refl Hp)).
+  cbn [bind]. rewrite sget_first. cbn [bind].
+  rewrite (sget_absent1 "out" "in") by reflexivity. cbn [bind].
+  rewrite Hread, Hobj. reflexivity.
+Qed.
+
+Lemma fileformat_step_out f c ctx files p_raw o_raw path opath text out :
+  sget (format_key f) ctx = Some (VDict [(VStr "in", p_raw); (VStr "out", o_raw)]) ->
+  format_value FUEL1 ctx p_raw = Ok (VStr path) ->
+  format_value FUEL1 ctx o_raw = Ok (VStr opath) ->
+  fs_read path files = Some text ->
+  fileformat_obj c ctx text = Ok out ->
+  fileformat_step f c ctx files = Ok (fs_write opath out files).
+Proof.
+  intros Hget Hp Ho Hread Hobj.
+  unfold fileformat_step, assert_has_value. rewrite Hget. cbn [bind].
+  rewrite (get_formatted_ok _ _ _ _
+             (format_dict2 ctx "in" "out" _ _ _ _ eq_refl eq_refl eq_refl Hp Ho)).
+  cbn [bind]. rewrite sget_first. cbn [bind].
+  rewrite (sget_second "out" "in") by reflexivity. cbn [bind].
+  rewrite Hread, Hobj. reflexivity.
+Qed.
+
+(** ** equality up to key order respects the shape the steps look at *)
+Lemma eqv_shape_bool : forall a b : val,
+  val_eqv a b = true -> has_len a = has_len b /\ is_mapping a = is_mapping b.
+Proof.
+  intros a b. destruct a, b; cbn [val_eqv val_eqb has_len is_mapping]; intros H;
+    try discriminate H; split; reflexivity.
+Qed.
+
+(** ** the full-strength write/fetch statement fails for a document whose root is a
+    scalar without a length: the closing log line of fetchjson / fetchyaml calls
+    len(payload) *)
+Definition scalar_ctx : dict :=
+  [(VStr "fileWriteJson", VDict [(VStr "path", VStr "/T/n.json"); (VStr "payload", VInt 5)]);
+   (VStr "fetchJson", VDict [(VStr "path", VStr "/T/n.json"); (VStr "key", VStr "out")])].
+
+Lemma fetch_scalar_root_fails :
+  exists ctx files,
+    json_representable (VInt 5) /\
+    write_step FJson json_codec ctx [] = Ok files /\
+    fs_read "/T/n.json" files = Some "5" /\
+    fetch_step FJson json_codec ctx files = Err "TypeError" "object of type 'int' has no len()".
+Proof. exists scalar_ctx. eexists. vm_compute. repeat split. Qed.
